@@ -31,38 +31,44 @@ class NumText (α : Type) where
 def isSpace (c : Char) : Bool :=
   c == ' ' || c == '\t' || c == '\n' || c == '\x0b' || c == '\x0c' || c == '\r'
 
-def isDigit (c : Char) : Bool := '0' ≤ c && c ≤ '9'
+/-- `std::isdigit` -/
+def isDigit (c : Char) : Bool := c.isDigit
 
 /-- `TextTools::removeSurroundingWhiteSpaces` -/
 def trim (l : List Char) : List Char :=
   ((l.dropWhile isSpace).reverse.dropWhile isSpace).reverse
 
-/-- the loop of `TextTools::isDecimalNumber(s, '.', 'e')` from index `i` on -/
-def isDecLoop (s : Array Char) : (fuel i sep sci : Nat) → Bool
-  | 0, _, _, _ => true
-  | fuel + 1, i, sep, sci =>
-    if h : i < s.size then
-      let c := s[i]
-      if c == '.' then
-        if sep + 1 > 1 || sci > 1 then false else isDecLoop s fuel (i + 1) (sep + 1) sci
-      else if c == 'e' then
-        if i == s.size - 1 then false else
-        let i' := if h2 : i + 1 < s.size then (if s[i + 1] == '-' || s[i + 1] == '+' then i + 1 else i) else i
-        if i' == s.size - 1 then false else
-        let sep' := if sep == 0 then 1 else sep
-        if sep' > 1 || sci + 1 > 1 then false else isDecLoop s fuel (i' + 1) sep' (sci + 1)
-      else if !isDigit c then false
-      else if sep > 1 || sci > 1 then false else isDecLoop s fuel (i + 1) sep sci
-    else true
+/-- the loop of `TextTools::isDecimalNumber(s, '.', 'e')` on the characters not yet visited
+(`i == s.size() - 1` in the source = "no character follows"); `sep`, `sci` are the two counters -/
+def isDecLoop : List Char → (sep sci : Nat) → Bool
+  | [], _, _ => true
+  | c :: rest, sep, sci =>
+    if c == '.' then
+      if sep + 1 > 1 || sci > 1 then false else isDecLoop rest (sep + 1) sci
+    else if c == 'e' then
+      match rest with
+      | [] => false                                   -- must be something after the `e`
+      | c' :: rest' =>
+        let sep' := if sep == 0 then 1 else sep       -- no separator in the exponent
+        if c' == '-' || c' == '+' then
+          -- the sign is skipped; it must not be the last character
+          match rest' with
+          | [] => false
+          | _ :: _ => if sep' > 1 || sci + 1 > 1 then false else isDecLoop rest' sep' (sci + 1)
+        else
+          if sep' > 1 || sci + 1 > 1 then false else isDecLoop (c' :: rest') sep' (sci + 1)
+    else if !isDigit c then false
+    else if sep > 1 || sci > 1 then false else isDecLoop rest sep sci
 
 /-- `TextTools::isDecimalNumber(s)` (TextTools.cpp:135) -/
 def isDecimalNumber (l : List Char) : Bool :=
   if l.all isSpace then false else
-  let s := l.toArray
-  isDecLoop s (s.size + 1) (if l.head? == some '-' then 1 else 0) 0 0
+  match l with
+  | '-' :: r => isDecLoop r 0 0
+  | r => isDecLoop r 0 0
 
-def digitVal (c : Char) : Nat := c.toNat - '0'.toNat
-def natOfDigits (l : List Char) : Nat := l.foldl (fun acc c => acc * 10 + digitVal c) 0
+/-- the value of a string of decimal digits -/
+def natOfDigits (l : List Char) : Nat := Nat.ofDigitChars 10 l 0
 
 /-- the strict subset: `-?d+` or `-?d+.d+`; gives sign, integer digits, fraction digits -/
 def strictSplit (l : List Char) : Option (Bool × List Char × List Char) :=
